@@ -11,6 +11,12 @@ NA = {
 }
 
 CLAIMS = {
+ "C05": dict(design="§2 C05", technique="CFG path rule over E-EFF write attribution (COUPLE), exact SSA pattern rule for single-edge methods, E-EFF freshness/purity, E-PROVE packed-triangle discipline (TRI)",
+   text="Decides three structural clauses for every edit history: adjacency storage is never changed on a path that leaves NumberOfEdges or DegreeSequence unwritten, and the single-edge methods update count and both endpoint degrees with the matching sign; Copy/InducedSubgraph results share no memory with their source and write nothing reachable from it; every index into DenseGraph.Edges in the representation's own methods is the lower-triangle cell of the two vertices named (0 <= I < J proved). Does not decide agreement with the adjacency-set model.",
+   note="Vertex numbers passed as parameters are non-negative; data-derived operands are recorded as preconditions, not judged."),
+ "C06": dict(design="§2 C06", technique="E-EFF freshness of constructors, typed-AST composite-literal completeness, E-PROVE packed-triangle discipline over all generators/transformations/decoders",
+   text="Decides: NewDense/NewSparse keep no caller memory (the aliasing clause); no DenseGraph/SparseGraph literal with adjacency leaves out its counts; every hand-written index into packed-triangle storage in generators, transformations, decoders and the search is a lower-triangle cell for all accepted parameter values (closed form with 0 <= I < J proved, running index, or sweep). Does not decide that each family has exactly its defining edges, nor agreement of hand-filled counts.",
+   note="Data-derived operands (Pruefer codes, Multicode bytes, part sizes) are recorded as preconditions; constructor classification is informational."),
  "C07": dict(design="§2 C07", technique="constant/shape extraction from SSA of the four codecs compared against the format definition (header stores, header sums, thresholds, markers, bit-packing roles)",
    text="Decides that the four hand-written copies of the graph6/sparse6 size header agree with the published format (thresholds 62/258047/2^36-1, marker bytes, sextet shifts, mask and offset, header lengths, data offsets) and that the bit-packing constants (6 bits per byte, msb first, offset 63, range [63,126] checked before decoding, k = bits(n-1)) are the format's in every codec - including the long-header branches no test executes. Does not decide round-trip equality.",
    note="Format constants transcribed from formats.txt; unrecognised shapes are 'undecided' and fail."),
